@@ -133,7 +133,8 @@ def gen_config(rng):
                 if shared:
                     exp['executions'] = list(exp['executions']) + [rng.choice(shared)]
             exp['suites'] = rng.sample(suites_all, rng.randint(1, len(suites_all)))
-        cfg['experiments']['X%d' % x] = exp
+        # experiment names that are substrings of the word `all` are ordinary names
+        cfg['experiments'][['X%d' % x, ['a', 'l', 'al'][x]][rng.random() < 0.3]] = exp
     if rng.random() < 0.5:
         cfg['runs'] = gen_level(rng, nxt(), with_vars=False)
     n_mach = rng.randint(0, 2)
